@@ -4,6 +4,7 @@
 -/
 import SigV4.Model.Validate
 import SigV4.Model.Observe
+import SigV4.Model.Poll
 import SigV4.Model.Requirements
 import SigV4.Model.Keys
 import SigV4.Model.Sha256
@@ -284,6 +285,18 @@ def step (line : String) : String :=
       let r := l.foldl Requirements.apply Requirements.empty
       s!"{hexList r.always} {hexList r.ifInRequest} {hexList r.prefixes}"
     | none => "bad-op"
+  | "POLL" :: pr :: pa :: rest => match pr.toNat?, pa.toNat?, parseCase rest with
+    | some pr, some pa, some c =>
+      let e : PollEntry := { pendingReady := pr, readyErr := c.entry.1, pendingAnswer := pa, answer := c.entry.2 }
+      match pollLoop H c.cfg e c.req (pr + pa + 2) .start {} 0 with
+      | some (out, log, k) =>
+        let head := match out with
+          | .ok _ => "OK"
+          | .err kd => s!"ERR {kd.name}"
+          | .panic p => s!"PANIC {p.replace " " "_"}"
+        s!"{head} POLLS {k} READY {log.readyPolls} FUT {log.futurePolls} CALLS {log.calls.length}"
+      | none => "NOT-FINISHED"
+    | _, _, _ => "bad-op"
   | "OBS" :: rest => match parseCase rest with
     | some c =>
       let o := observe H c.cfg scriptProvider [c.entry] c.req
